@@ -391,4 +391,49 @@ CANARIES: Dict[str, Dict[str, Any]] = {
         old="    return isinstance(a, Tensor) and a.is_floating_point()", new="    return isinstance(a, Tensor)",
         job="c18:run_node[transforms,int]", expect=["non_float_value_is_never_instrumented"],
     ),
+    "c17-transform-without-copy": dict(
+        props=["C17"], file="unit_scaling/transforms/utils.py", module="unit_scaling.transforms.utils",
+        old="    module = copy.deepcopy(module)\n", new="    module = module\n",
+        job="c17:apply_transform[transformed_before=False]", expect=["returns_a_new_module", "unchanged", "frame"],
+    ),
+    "c17-base-forward-wraps-the-wrapper": dict(
+        props=["C17"], file="unit_scaling/transforms/utils.py", module="unit_scaling.transforms.utils",
+        old='module.base_forward = getattr(module, "base_forward", module.forward)', new="module.base_forward = module.forward",
+        job="c17:apply_transform[transformed_before=True]", expect=["base_forward_is_the_ORIGINAL_forward", "dynamo_sees_the_original_forward"],
+    ),
+    "c17-no-retrace-after-new-transform": dict(
+        props=["C17"], file="unit_scaling/transforms/utils.py", module="unit_scaling.transforms.utils",
+        old="    module.rerun_transform = True\n", new='    module.rerun_transform = getattr(module, "rerun_transform", True)\n',
+        job="c17:apply_transform[transformed_before=True]", expect=["C17:transforms.utils.apply_transform"],
+    ),
+    "c17-composite-over-a-copy-of-the-list": dict(
+        props=["C17"], file="unit_scaling/transforms/utils.py", module="unit_scaling.transforms.utils",
+        old="    backend = _compose_backends(module.backends)", new="    backend = _compose_backends(list(module.backends))",
+        job="c17:apply_transform[transformed_before=False]", expect=["composite_backend_closes_over_the_results_own_backend_list"],
+    ),
+    "c17-backends-list-shared-with-source": dict(
+        props=["C17"], file="unit_scaling/transforms/utils.py", module="unit_scaling.transforms.utils",
+        old="    module = copy.deepcopy(module)\n\n    torch_nn_modules_to_user_modules(module)", new="    _b = getattr(module, 'backends', None)\n    module = copy.deepcopy(module)\n    if _b is not None:\n        module.backends = _b\n\n    torch_nn_modules_to_user_modules(module)",
+        job="c17:apply_transform[transformed_before=True]", expect=["argument_and_everything_reachable_from_it_unchanged", "backends_are_the_earlier_ones", "no_object_or_storage_shared"],
+    ),
+    "c17-compose-applies-each-backend-to-the-first-graph": dict(
+        props=["C17"], file="unit_scaling/transforms/utils.py", module="unit_scaling.transforms.utils",
+        old="            gm = new_gm  # type: ignore[assignment]\n", new="            pass\n",
+        job="c17:_compose_backends", expect=["use_returns_the_last_result"],
+    ),
+    "c17-order-inserts-after-quantisation": dict(
+        props=["C17"], file="unit_scaling/transforms/_unit_scale.py", module="unit_scaling.transforms._unit_scale",
+        old="        backends.insert(quantisation_backend_idx, u)", new="        backends.insert(quantisation_backend_idx + 1, u)",
+        job="c17:_order_backends[<=4]", expect=["unit_scaling_precedes_quantisation"],
+    ),
+    "c17-unit-scale-initialises-the-original": dict(
+        props=["C17"], file="unit_scaling/transforms/_unit_scale.py", module="unit_scaling.transforms._unit_scale",
+        old="    _unit_init_weights(unit_scaled_module)\n", new="    _unit_init_weights(module)\n",
+        job="c17:unit_scale", expect=["initialisation_touches_the_result_only"],
+    ),
+    "c17-unit-scale-forgets-to-reorder": dict(
+        props=["C17"], file="unit_scaling/transforms/_unit_scale.py", module="unit_scaling.transforms._unit_scale",
+        old="    _order_backends(unit_scaled_module.backends)\n", new="",
+        job="c17:unit_scale", expect=["sequence_backend_apply_order_init"],
+    ),
 }
